@@ -80,8 +80,8 @@ pub fn venue_view(tag: u8, reserve: &[u8], obligation: &[u8]) -> Option<VenueVie
 }
 pub fn reserve_slot(setup: OracleSetup, data: &[u8]) -> Option<u64> {
     match setup {
-        OracleSetup::KaminoPythPush => venue::read_reserve(data).map(|r| r.slot),
-        OracleSetup::SolendPythPull => venue::read_solend_reserve(data).map(|r| r.last_update_slot),
+        OracleSetup::KaminoPythPush | OracleSetup::KaminoSwitchboardPull => venue::read_reserve(data).map(|r| r.slot),
+        OracleSetup::SolendPythPull | OracleSetup::SolendSwitchboardPull => venue::read_solend_reserve(data).map(|r| r.last_update_slot),
         _ => None, // Drift staleness is by the second, judged by the reference price itself
     }
 }
